@@ -141,6 +141,36 @@ def build_harness():
     return p
 
 
+def miri_cmd():
+    """B4: (argv prefix, env, cwd) to run the Miri harness `s4miri` (nightly `cargo miri run`, offline, release profile:
+    the properties are about the released code paths, debug builds add debug-only assertions and traces)."""
+    hdir = os.path.join(VERIF, "harness-miri")
+    tgt = os.path.join(BUILD, "b4")
+    if os.path.realpath(REPO) != "/repo":
+        src = hdir
+        hdir = os.path.join(BUILD, "harness-miri-src")
+        if "miri" not in _built:
+            shutil.rmtree(hdir, ignore_errors=True)
+            shutil.copytree(src, hdir, ignore=shutil.ignore_patterns("target", "Cargo.lock"))
+            ct = open(os.path.join(hdir, "Cargo.toml")).read().replace('path = "/repo"', 'path = "%s"' % REPO)
+            open(os.path.join(hdir, "Cargo.toml"), "w").write(ct)
+    lock_src = os.path.join(REPO, "Cargo.lock")
+    lock_dst = os.path.join(hdir, "Cargo.lock")
+    if os.path.exists(lock_src) and not os.path.exists(lock_dst):
+        shutil.copyfile(lock_src, lock_dst)
+    env = dict(os.environ)
+    env.update({"CARGO_NET_OFFLINE": "true", "CARGO_TARGET_DIR": tgt, "MIRIFLAGS": "-Zmiri-disable-isolation", "CARGO_TERM_COLOR": "never"})
+    argv = ["cargo", "+nightly", "miri", "run", "--release", "--offline", "-q", "--"]
+    if "miri" not in _built:
+        # first invocation compiles the crate graph for the interpreter (about 80 s cold); do it once, serially
+        with _Lock("b4"):
+            p = subprocess.run(argv + ["decode", "0", "0", "1", "nul"], cwd=hdir, env=env, stdout=subprocess.PIPE, stderr=subprocess.PIPE, timeout=3600)
+        if p.returncode != 0 and b"Undefined Behavior" not in p.stderr:
+            raise HarnessError("miri harness does not build/run: %s" % p.stderr[-2000:].decode("utf-8", "replace"))
+        _built["miri"] = True
+    return argv, env, hdir
+
+
 # --------------------------------------------------------------------------
 # running processes
 
